@@ -149,6 +149,94 @@ Definition normal_eq_ok (Xf : list (list Q)) (thf : list Q) (b0 : Q) (b : list Q
                     Qle_bool (Qabs (dotr c r)) (tol_ne * dotr (map Qabs c) (map Qabs s)))
           (seq 0 (S (length b))).
 
+(** ** configuration of the adjustment object (wave 3)
+
+    The constructor of [RegressionAdjustment] (keyword arguments) hands every keyword to the regression model, for
+    [LinearAdjustment] scikit-learn's [LinearRegression(fit_intercept, copy_X, positive, n_jobs)].
+    Which regression problem is solved depends on [fit_intercept] and [positive] only:
+      fit_intercept = True , positive = False : least squares on [1 X]          ([normal_eq_ok])
+      fit_intercept = False                   : least squares on [X], intercept_ = 0
+      positive = True                         : the same with slope >= 0 (NNLS): Karush-Kuhn-Tucker
+                                                conditions instead of the normal equations
+    [copy_X] (may scikit-learn overwrite the matrix it is GIVEN) and [n_jobs] are not part of the
+    problem; the functions above ([input_variables], [pairs], [adjust_all]) do not take a
+    configuration at all: whatever coefficient vector comes back, it is applied to the rows of
+    [summaries - observed]. *)
+Record config := {
+  cf_fit_intercept : bool;
+  cf_copy_X : bool;
+  cf_positive : bool;
+  cf_n_jobs : option Z
+}.
+Definition default_config : config :=
+  {| cf_fit_intercept := true; cf_copy_X := true; cf_positive := false; cf_n_jobs := None |}.
+Definition same_problem (a b : config) : bool :=
+  Bool.eqb (cf_fit_intercept a) (cf_fit_intercept b) && Bool.eqb (cf_positive a) (cf_positive b).
+
+(** column [j] of the gradient [D^T (D beta - theta)] and the bound it is compared with, from the
+    residuals [r] / row scales [s] (computed once per fit) *)
+Definition gradc (Xf : list (list Q)) (r : list Q) (j : nat) : Q := dotr (design_col Xf j) r.
+Definition limc (Xf : list (list Q)) (s : list Q) (j : nat) : Q :=
+  tol_ne * dotr (map Qabs (design_col Xf j)) (map Qabs s).
+Definition grad (Xf : list (list Q)) (thf : list Q) (b0 : Q) (b : list Q) (j : nat) : Q :=
+  gradc Xf (residuals Xf thf b0 b) j.
+Definition grad_lim (Xf : list (list Q)) (thf : list Q) (b0 : Q) (b : list Q) (j : nat) : Q :=
+  limc Xf (row_scales Xf thf b0 b) j.
+
+(** slope entry [j] (design column [j], [1 <= j]) is optimal for the configuration *)
+Definition slope_ok (cfg : config) (Xf : list (list Q)) (r s : list Q) (b : list Q) (j : nat) : bool :=
+  let g := gradc Xf r j in
+  let lim := limc Xf s j in
+  if cf_positive cfg then
+    let bj := nth (pred j) b 0 in
+    Qle_bool 0 bj && (if Qeq_bool bj 0 then Qle_bool (- lim) g else Qle_bool (Qabs g) lim)
+  else Qle_bool (Qabs g) lim.
+
+(** [(intercept_, coef_)] solve the regression problem of the configuration on the usable rows *)
+Definition fit_ok (cfg : config) (Xf : list (list Q)) (thf : list Q) (b0 : Q) (b : list Q) : bool :=
+  let r := residuals Xf thf b0 b in
+  let s := row_scales Xf thf b0 b in
+  (if cf_fit_intercept cfg then Qle_bool (Qabs (gradc Xf r 0)) (limc Xf s 0) else Qeq_bool b0 0)
+  && forallb (slope_ok cfg Xf r s b) (seq 1 (length b)).
+
+(** the object's public [X] attribute, read back after [adjust()]: the same shape, non-finite exactly
+    where [summaries - observed] is, and the same numbers (binary64 subtraction vs exact [Q]) *)
+Definition close_fval (a b : fval) : bool :=
+  match a, b with
+  | Some x, Some y => close tol_formula (1 + Qabs x) x y
+  | None, None => true
+  | _, _ => false
+  end.
+Fixpoint all2 {A B} (f : A -> B -> bool) (l : list A) (m : list B) : bool :=
+  match l, m with
+  | [], [] => true
+  | x :: l', y :: m' => f x y && all2 f l' m'
+  | _, _ => false
+  end.
+Definition x_attr_ok (X Ximpl : list (list fval)) : bool := all2 (all2 close_fval) X Ximpl.
+
+(** the adjustment object as a state: [fit] stores the regressors, the masks and the fitted
+    coefficients; [adjust] READS them -- it returns the adjusted arrays and leaves the object as it
+    was, so any number of [adjust()] calls return the same arrays and [X] stays [summaries - observed] *)
+Record astate := {
+  st_X : list (list fval);
+  st_masks : list (list bool);
+  st_coefs : list (list Q)
+}.
+Definition fit_state (summ : list (list fval)) (obs : list fval) (thetas : list (list fval))
+           (bs : list (list Q)) : astate :=
+  let X := input_variables summ obs in
+  {| st_X := X; st_masks := map (finite_mask X) thetas; st_coefs := bs |}.
+Definition adjust_state (st : astate) (thetas : list (list fval)) : astate * option (list (list Q)) :=
+  (st, adjust_all (st_X st) thetas (st_coefs st)).
+Fixpoint adjust_calls (n : nat) (st : astate) (thetas : list (list fval))
+  : astate * list (option (list (list Q))) :=
+  match n with
+  | O => (st, [])
+  | S n' => let (st1, o) := adjust_state st thetas in
+            let (st2, os) := adjust_calls n' st1 thetas in (st2, o :: os)
+  end.
+
 (** ** listing order of the summaries and storage of the arrays
 
     The model above is a function of the NUMERIC values of the sample alone: it has no notion of the
@@ -193,7 +281,11 @@ Record arun := {
   r_pdt : list dtype;            (* dtype of sample.outputs[parameter q] *)
   r_coef : list (list Q);        (* coef_ per parameter, in the run's own listing order *)
   r_icpt : list Q;
-  r_out : option (list (list Q))
+  r_out : option (list (list Q));
+  r_cfg : config;                (* keyword arguments the adjustment object was built with *)
+  r_oracle : list (list Q);      (* canonical listing: oracle slope of the run's regression problem (used when
+                                    it is not the default problem; the default problem uses [a_oracle]) *)
+  r_X : option (list (list fval)) (* the object's X attribute after adjust(), in the run's own listing *)
 }.
 
 Record acase := {
@@ -204,6 +296,7 @@ Record acase := {
   a_impl_coef : list (list Q);        (* per parameter: regression_models[i].coef_ *)
   a_impl_icpt : list Q;               (* per parameter: regression_models[i].intercept_ *)
   a_impl_out : option (list (list Q)); (* adjust_posterior(...).outputs per parameter; None = raised *)
+  a_impl_X : option (list (list fval)); (* the adjustment object's X attribute after adjust() *)
   a_runs : list arun                  (* the same numeric sample, listed / stored otherwise *)
 }.
 
@@ -220,13 +313,20 @@ Definition run_wf (c : acase) (r : arun) : bool :=
   && forallb (fun jt => storable (snd jt) (nth (fst jt) (a_obs c) None)) (combine (r_perm r) (r_odt r))
   && forallb (fun pt => forallb (storable (snd pt)) (fst pt)) (combine (a_params c) (r_pdt r)).
 
+(** the oracle slope of the run's regression problem (canonical listing): a run whose configuration
+    poses the default problem -- whatever its [copy_X] / [n_jobs] -- is held against the SAME slope as
+    the reference run *)
+Definition run_oracle (c : acase) (r : arun) : list (list Q) :=
+  if same_problem (r_cfg r) default_config then a_oracle c else r_oracle r.
+
 (** the run seen as a case of its own, in its own listing order *)
 Definition run_case (c : acase) (r : arun) : acase :=
   {| a_summ := permute_cols (r_perm r) (a_summ c);
      a_obs := permute (r_perm r) (a_obs c) None;
      a_params := a_params c;
-     a_oracle := map (fun b => permute (r_perm r) b 0) (a_oracle c);
-     a_impl_coef := r_coef r; a_impl_icpt := r_icpt r; a_impl_out := r_out r; a_runs := [] |}.
+     a_oracle := map (fun b => permute (r_perm r) b 0) (run_oracle c r);
+     a_impl_coef := r_coef r; a_impl_icpt := r_icpt r; a_impl_out := r_out r; a_impl_X := r_X r;
+     a_runs := [] |}.
 
 Fixpoint close_all (tol : Q) (X : list (list fval)) (thetas : list (list fval)) (bs : list (list Q))
          (outs : list (list Q)) : bool :=
@@ -239,21 +339,22 @@ Fixpoint close_all (tol : Q) (X : list (list fval)) (thetas : list (list fval)) 
 
 (** the model's single result (canonical listing, numeric values, oracle slope) against the output of
     one run of the implementation *)
-Definition agree_out (c : acase) (impl : option (list (list Q))) : bool :=
+Definition agree_out (c : acase) (oracle : list (list Q)) (impl : option (list (list Q))) : bool :=
   let X := input_variables (a_summ c) (a_obs c) in
-  match adjust_all X (a_params c) (a_oracle c), impl with
-  | Some _, Some outs => close_all tol_agree X (a_params c) (a_oracle c) outs
+  match adjust_all X (a_params c) oracle, impl with
+  | Some _, Some outs => close_all tol_agree X (a_params c) oracle outs
   | None, None => true
   | _, _ => false
   end.
 
-(** every run -- whatever the listing order and the storage -- reproduces the model's result *)
+(** every run -- whatever the listing order, the storage, and the [copy_X] / [n_jobs] it was configured
+    with -- reproduces the model's result for its regression problem *)
 Definition a_agree (c : acase) : bool :=
-  agree_out c (a_impl_out c)
-  && forallb (fun r => run_wf c r && agree_out c (r_out r)) (a_runs c).
+  agree_out c (a_oracle c) (a_impl_out c)
+  && forallb (fun r => run_wf c r && agree_out c (run_oracle c r) (r_out r)) (a_runs c).
 
-Fixpoint ok_all (X : list (list fval)) (thetas : list (list fval)) (bs : list (list Q)) (b0s : list Q)
-         (outs : list (list Q)) : bool :=
+Fixpoint ok_all (cfg : config) (X : list (list fval)) (thetas : list (list fval)) (bs : list (list Q))
+         (b0s : list Q) (outs : list (list Q)) : bool :=
   match thetas, bs, b0s, outs with
   | [], _, _, [] => true
   | theta :: ts, b :: bs', b0 :: b0s', o :: outs' =>
@@ -261,24 +362,26 @@ Fixpoint ok_all (X : list (list fval)) (thetas : list (list fval)) (bs : list (l
        Nat.eqb (length o) (length (finite_indices X theta))
        && close_rows tol_formula Xf thf b o
        && zero_rows_fixed Xf thf o
-       && normal_eq_ok Xf thf b0 b)
-      && ok_all X ts bs' b0s' outs'
+       && fit_ok cfg Xf thf b0 b)
+      && ok_all cfg X ts bs' b0s' outs'
   | _, _, _, _ => false
   end.
 
 (** the property evaluated on the implementation's own output and own coefficients *)
-Definition a_ok1 (c : acase) : bool :=
+Definition a_ok1 (cfg : config) (c : acase) : bool :=
   let X := input_variables (a_summ c) (a_obs c) in
   match a_impl_out c with
-  | Some outs => ok_all X (a_params c) (a_impl_coef c) (a_impl_icpt c) outs
+  | Some outs => ok_all cfg X (a_params c) (a_impl_coef c) (a_impl_icpt c) outs
+                 && match a_impl_X c with Some Xi => x_attr_ok X Xi | None => false end
   | None =>                           (* a failed run is admissible only when some parameter has no usable row *)
       match adjust_all X (a_params c) (map (fun _ => []) (a_params c)) with None => true | Some _ => false end
   end.
 
-(** ... for the reference run and for every further run in its own listing (the numeric regressors
-    are the permuted columns of the case's, never a dtype-converted copy) *)
+(** ... for the reference run (default configuration) and for every further run in its own listing and
+    under its own configuration (the numeric regressors are the permuted columns of the case's, never a
+    dtype-converted copy, and never what the object holds after the fit) *)
 Definition a_ok (c : acase) : bool :=
-  a_ok1 c && forallb (fun r => a_ok1 (run_case c r)) (a_runs c).
+  a_ok1 default_config c && forallb (fun r => a_ok1 (r_cfg r) (run_case c r)) (a_runs c).
 
 (** * Model comparison *)
 
